@@ -2,6 +2,7 @@ package output
 
 import (
 	"bufio"
+	"bytes"
 	"fmt"
 	"io"
 	"regexp"
@@ -17,9 +18,14 @@ const ansi = "[\u001B\u009B][[\\]()#;?]*(?:(?:(?:[a-zA-Z\\d]*(?:;[a-zA-Z\\d]*)*)
 
 var ansiRegexp = regexp.MustCompile(ansi)
 
+// an escape sequence that has only its introducer and parameters so far
+var ansiUnfinishedRegexp = regexp.MustCompile("^[\u001B\u009B][[\\]()#;?]*[\\d;]*$")
+
 type prefixedOutputDecorator struct {
 	t *task.Task
 	w *bufio.Writer
+	// escape sequence cut by the end of the previous write, held back until it can be seen as a whole
+	pending []byte
 }
 
 func newPrefixedOutputWriter(t *task.Task, w io.Writer) *prefixedOutputDecorator {
@@ -31,6 +37,16 @@ func newPrefixedOutputWriter(t *task.Task, w io.Writer) *prefixedOutputDecorator
 
 func (d *prefixedOutputDecorator) Write(p []byte) (int, error) {
 	n := len(p)
+	if len(d.pending) > 0 {
+		p = append(d.pending, p...)
+		d.pending = nil
+	}
+
+	if i := unfinishedEscape(p); i >= 0 {
+		d.pending = append([]byte(nil), p[i:]...)
+		p = p[:i]
+	}
+
 	for {
 		advance, line, err := bufio.ScanLines(p, true)
 		if err != nil {
@@ -68,6 +84,11 @@ func (d *prefixedOutputDecorator) WriteHeader() error {
 }
 
 func (d *prefixedOutputDecorator) WriteFooter() error {
+	if len(d.pending) > 0 {
+		_, _ = d.w.Write(d.pending)
+		d.pending = nil
+	}
+
 	err := d.w.Flush()
 	if err != nil {
 		logrus.Warning(err)
@@ -75,6 +96,21 @@ func (d *prefixedOutputDecorator) WriteFooter() error {
 
 	logrus.Infof("%s finished. Duration %s", d.t.Name, d.t.Duration())
 	return nil
+}
+
+// unfinishedEscape returns the index at which an escape sequence starts that the end of p cuts
+// short (so far it consists of its introducer and parameters only), or -1
+func unfinishedEscape(p []byte) int {
+	i := bytes.LastIndexAny(p, "\u001B\u009B")
+	if i < 0 || len(p)-i > 32 {
+		return -1
+	}
+
+	if !ansiUnfinishedRegexp.Match(p[i:]) {
+		return -1
+	}
+
+	return i
 }
 
 type lineWriter struct {
